@@ -1,6 +1,7 @@
 import Driver.HdrCmd
 import Driver.CoreCmd
 import Driver.ReadCmd
+import Driver.HistCmd
 open Driver
 
 def dispatch (line : String) : String :=
@@ -9,6 +10,7 @@ def dispatch (line : String) : String :=
   | cmd :: rest =>
     match cmd with
     | "core" => coreCmd rest
+    | "hist" => histCmd rest
     | "read" => readCmd rest
     | "views" => viewsCmd rest
     | "meta" => metaCmd rest
